@@ -542,8 +542,10 @@ fn c14_behaviour(g: &Gram, out: &mut Out, rng: &mut Rng, b: &Value, reps: usize)
         let mut count = 0;
         while count < n {
             // instructions that need no extra declarations, so that exactly n are delivered
-            let op = *rng.pick(&ops);
-            if g.has_context_kind(op) { continue; }
+            // OpSpecConstantOp (its embedded operands need no declarations) appears often: it is the one
+            // instruction with its own operand loop, and the instructions AFTER it must still be delivered
+            let op = if rng.chance(1, 5) { 52 } else { *rng.pick(&ops) };
+            if op != 52 && g.has_context_kind(op) { continue; }
             let i = gen.inst(op, rng, &mut ctx, &Plan::random());
             for d in &ctx.decls[emitted..] { ws.extend(d.encode()); count += 1; }
             emitted = ctx.decls.len();
